@@ -172,6 +172,24 @@ static int tglfMode(int count, uint64_t seed, const char *outFile)
 #include "h_dialect_peel.h"
 #include "h_dialect_hola.h"
 #include "h_dialect_planar.h"
+#include "libdialect/chains.h"
+// bendseq mode: dumps the generated lookup table minimalBendSeqs (bendseqlookup.cpp) as records [c, d0, d1, [[shape..]..]]
+// with the library's enum values: CompassDir E,S,W,N,SE,SW,NW,NE = 0..7; CardinalDir E,S,W,N = 0..3; LinkShape TLC=0, BLC=2, TRC=3, BRC=5
+static int bendseqMode(const char *outFile)
+{
+    vt::Out out(outFile);
+    vt::J j; j.obj().k("recs").arr();
+    for (int c = 0; c < 8; c++) for (int d0 = 0; d0 < 4; d0++) for (int d1 = 0; d1 < 4; d1++) {
+        j.obj().k("c").i(c).k("d0").i(d0).k("d1").i(d1).k("present").b(true).k("seqs").arr();
+        try {
+            const auto &v = minimalBendSeqs.at((CompassDir)c).at((CardinalDir)d0).at((CardinalDir)d1);
+            for (auto &sq : v) { j.arr(); for (auto b : sq) j.i((int)b); j.end(); }
+            j.end().end();
+        } catch (std::out_of_range &) { j.end().k("missing").b(true).end(); }
+    }
+    j.end().end(); out.line(j);
+    return 0;
+}
 
 int main(int argc, char **argv)
 {
@@ -181,6 +199,7 @@ int main(int argc, char **argv)
     if (m == "tglf" && argc >= 5) return tglfMode(atoi(argv[2]), strtoull(argv[3], 0, 10), argv[4]);
     if (m == "peel" && argc >= 4) return peelMode(argv[2], argv[3]);
     if (m == "planar" && argc >= 4) return planarMode(argv[2], argv[3]);
+    if (m == "bendseq" && argc >= 3) return bendseqMode(argv[2]);
     if (m == "hola" && argc >= 4) return holaMode(argv[2], argv[3], argc > 4 ? atol(argv[4]) : 0, argc > 5 ? atol(argv[5]) : 0);
     return 2;
 }
